@@ -152,6 +152,23 @@ def run(check, unrecognised):
 					f'output file {"written" if exists else "absent"}',
 					{'case': {'cli': True, 'files': files, 'file': name, 'operator': operator, 'site': site},
 						'how': 'run.py replay <this file>: writes the tree to a scratch directory and runs python -m catparser'})
+		# the operators that act on the END of a file, on the root and on every imported file (a reader that tidies the text before
+		# parsing it would repair exactly these)
+		for name in sorted(VALID_TREE):
+			text = VALID_TREE[name]
+			endings = [(c04.FINAL_EOL, text.rstrip('\r\n')), ('deleted-final-line-end-keeping-trailing-blanks', text.rstrip('\r\n') + ' \t'),
+				('unterminated-extra-statement', text + 'using Zzq = uint8')]
+			for operator, bad_text in endings:
+				files = dict(VALID_TREE)
+				files[name] = bad_text
+				status, exists, tail = cli_run(files, scratch, 'ending')
+				check.case(f'cli:{name}:{operator}', f'{name}:{operator}')
+				if status == 0 or status is None or exists:
+					check.fail(f'cli:{operator}:{"exit-0" if status == 0 else "output-written" if exists else "timeout"}',
+						f'python -m catparser on a tree whose file {name} is changed by `{operator}`: exit status {status}, '
+						f'output file {"written" if exists else "absent"}',
+						{'case': {'cli': True, 'files': files, 'file': name, 'operator': operator, 'site': len(text.split(chr(10))) - 1},
+							'how': 'run.py replay <this file>: writes the tree to a scratch directory and runs python -m catparser'})
 		# every file of every confusable tree, corrupted in turn (the others intact)
 		for tree_name, tree in CONFUSABLE_TREES.items():
 			status, exists, tail = cli_run(tree, scratch, f'control-{tree_name}')
